@@ -707,6 +707,13 @@ class Interp:
                     if not self.pure and self.st.branch(c):
                         return lit(v) if simple_literal(v) else PyConst(v)
                 if self.pure:
+                    if all(simple_literal(v) for v in obj.values()):
+                        # a table of literals: the chain of comparisons (a missing key reads as ABSENT, which no
+                        # specification value equals)
+                        out = V.ABSENT
+                        for k, v in reversed(list(obj.items())):
+                            out = z3.If(self.truth(self.eq(iv, lit(k))), self.to_val(lit(v)), out)
+                        return out
                     raise Unsupported('subscript of constant dict in specification')
                 self.raise_(KeyError, iv)
             if isinstance(obj, (list, tuple, str)):
@@ -2109,6 +2116,8 @@ class Interp:
                 st.set_attr(Val.ref(base), t.attr, v)
         for stmts, cond in ((node.body, c), (node.orelse, z3.Not(c))):
             for st_ in stmts:
+                if self.fn is not None and id(st_) in self.fn.stmt_lines:
+                    self.fn.covered.add(self.fn.stmt_lines[id(st_)])      # reached under `cond` (merged, not forked)
                 t = st_.targets[0]
                 old = current(t)
                 new = self.to_val(self.ev(st_.value))
